@@ -382,29 +382,39 @@ structure Section where
   addr : W
   size : W
 
-def pdtMapLoop (pdtFrame flags : W) : Nat → W → W → St → R Nat
+/-- a mapping function as `kernelPDT.Map`: page, frame, flags -/
+abbrev MapFn := W → W → W → St → R Nat
+
+/-- the visitor's page loop: `for ; curPage <= lastPage; curFrame, curPage = curFrame+1, curPage+1` -/
+def pdtMapLoop (mp : MapFn) (flags : W) : Nat → W → W → St → R Nat
   | 0, _, _, st => .ok (0, st)
   | n + 1, page, frame, st =>
-    match pdtMap st pdtFrame page frame flags with
+    match mp page frame flags st with
     | .error e => .error e
-    | .ok (err, st) => if err ≠ 0 then .ok (err, st) else pdtMapLoop pdtFrame flags n (page + 1) (frame + 1) st
+    | .ok (err, st) => if err ≠ 0 then .ok (err, st) else pdtMapLoop mp flags n (page + 1) (frame + 1) st
 
 def sectionFlags (secFlags : W) : W :=
   let fl := fPresent
   let fl := if (secFlags &&& w elfSectionExecutable) == 0 then fl ||| fNX else fl
   if (secFlags &&& w elfSectionWritable) != 0 then fl ||| fRW else fl
 
-def visitSections (pdtFrame off : W) : List Section → Nat → St → R Nat
+/-- number of iterations of the visitor's page loop -/
+def sectionPageCount (s : Section) : Nat :=
+  let curPage := pageOf s.addr
+  let lastPage := pageOf (s.addr + (s.size - 1))
+  if curPage ≤ lastPage then (lastPage - curPage).toNat + 1 else 0
+
+/-- the ELF-section visitor of `setupPDTForKernel`, over the mapping function it calls -/
+def visitSectionsG (mp : MapFn) (off : W) : List Section → Nat → St → R Nat
   | [], err, st => .ok (err, st)
   | s :: rest, err, st =>
-    if err ≠ 0 || s.addr < off then visitSections pdtFrame off rest err st else
-    let curPage := pageOf s.addr
-    let lastPage := pageOf (s.addr + (s.size - 1))
-    let curFrame := (s.addr - off) >>> pageShift
-    let n := if curPage ≤ lastPage then (lastPage - curPage).toNat + 1 else 0
-    match pdtMapLoop pdtFrame (sectionFlags s.flags) n curPage curFrame st with
+    if err ≠ 0 || s.addr < off then visitSectionsG mp off rest err st else
+    match pdtMapLoop mp (sectionFlags s.flags) (sectionPageCount s) (pageOf s.addr) ((s.addr - off) >>> pageShift) st with
     | .error e => .error e
-    | .ok (err, st) => visitSections pdtFrame off rest err st
+    | .ok (err, st) => visitSectionsG mp off rest err st
+
+def visitSections (pdtFrame off : W) : List Section → Nat → St → R Nat :=
+  visitSectionsG (fun page frame flags st => pdtMap st pdtFrame page frame flags) off
 
 def copyReservations (pdtFrame : W) : Nat → W → St → R Nat
   | 0, _, st => .ok (0, st)
